@@ -170,7 +170,7 @@ func (e *evidence) fill(p *PropSpec, r *Runner, results []*JobResult, byLabel ma
 	e.Violations = nNew
 	as := append([]string{}, p.Assumptions...)
 	as = append(as, "Go standard library and runtime behave as specified; library code is executed from its own SSA or through the listed stubs",
-		"z3's sat/unsat answers are correct (cross-checked against z3 5.1.0 / cvc5 once per encoding change, see evidence/solver_crosscheck.json)",
+		"z3's sat/unsat answers are correct (a sample of this run's queries is re-decided by z3 5.x and cvc5, see coverage.solver_crosscheck)",
 		"the SSA executor implements Go semantics faithfully (validated by conformance runs of the repository's own test inputs and by native replay of every counterexample)")
 	sort.Strings(as)
 	e.Assumptions = as
